@@ -67,7 +67,7 @@ class HarnessError(Exception):
 
 
 class Obligation:
-    def __init__(self, name, gen, check, quick, thorough, doc="", budget=None):
+    def __init__(self, name, gen, check, quick, thorough, doc="", budget=None, shard_size=None):
         self.name = name
         self.gen = gen
         self.check = check
@@ -75,6 +75,7 @@ class Obligation:
         self.thorough = thorough
         self.doc = doc or (check.__doc__ or "").strip()
         self.budget = budget  # (quick seconds, thorough seconds) per shard
+        self.shard_size = shard_size  # examples per shard for slow obligations
 
 
 class Registry:
@@ -85,10 +86,10 @@ class Registry:
         self.level = level
         self.obligations = []
 
-    def obligation(self, name, gen, quick, thorough, budget=None):
+    def obligation(self, name, gen, quick, thorough, budget=None, shard_size=None):
         def deco(check):
             self.obligations.append(
-                Obligation(name, gen, check, quick, thorough, budget=budget)
+                Obligation(name, gen, check, quick, thorough, budget=budget, shard_size=shard_size)
             )
             return check
 
@@ -538,7 +539,9 @@ def main(argv=None):
     tasks = []
     for ob in obs:
         n_total = max(1, int((ob.thorough if tier == "thorough" else ob.quick) * args.scale))
-        if tier == "thorough":
+        if ob.shard_size:
+            shards = min(jobs, max(1, -(-n_total // ob.shard_size)))
+        elif tier == "thorough":
             shards = min(jobs, max(1, n_total // 50))
         else:
             shards = min(6, max(1, n_total // 60))
